@@ -40,6 +40,7 @@ func (c *cctx) with(cl *Clause) *cctx {
 }
 
 func (x *Exec) cctx(st *State, cl *Clause) *cctx {
+	x.factSink = st
 	return &cctx{x: x, st: st, old: x.entry, clause: cl, pos: x.curPos, head: x.loopHead}
 }
 
@@ -567,7 +568,16 @@ func (c *cctx) ghostField(base cval, g string, at ast.Expr) cval {
 	}
 	s := x.ghostSort(decl.Type)
 	arr := x.heapGet(c.st, "ghost:"+g, ArrSort(IntSort, s))
-	return cval{Sc{Select(arr, id.T)}, nil}
+	v := Select(arr, id.T)
+	if decl.Type == "nat" && len(c.bound) == 0 {
+		// type invariant of nat ghosts: 0 <= g <= 2^62 (stream positions, lengths)
+		mi := x.ar.mathInfo()
+		f := And(x.ar.le(x.ar.mathC(big.NewInt(0)), v, mi), x.ar.le(v, x.ar.mathC(new(big.Int).Lsh(big.NewInt(1), 62)), mi))
+		if x.factSink != nil {
+			x.factSink.add(f)
+		}
+	}
+	return cval{Sc{v}, nil}
 }
 
 func (x *Exec) ghostSort(t string) *Sort {
@@ -752,6 +762,15 @@ func (c *cctx) evalCall(e *ast.CallExpr) cval {
 			return c.mathVal(x.ar.toMath(lowBits, ii))
 		}
 		return c.mathVal(wrapInt(m, ii))
+	case "has_prefix", "has_suffix":
+		a, b := c.eval(arg(0)), c.eval(arg(1))
+		sa, ok1 := a.v.(Sl)
+		sb, ok2 := b.v.(Sl)
+		if !ok1 || !ok2 {
+			c.fail("%s wants slices/strings", name)
+			return c.boolVal(True)
+		}
+		return c.boolVal(x.hasPrefix(c.st, sa, sb, name == "has_suffix"))
 	case "bytes_eq":
 		// bytes_eq(a, b): same length and content
 		a, b := c.eval(arg(0)), c.eval(arg(1))
@@ -762,6 +781,28 @@ func (c *cctx) evalCall(e *ast.CallExpr) cval {
 			return c.boolVal(True)
 		}
 		return c.boolVal(x.stringEq(c.st, sa, sb))
+	case "store":
+		// store(a, i, v) on ghost byte arrays
+		a := c.eval(arg(0))
+		as, ok := a.v.(Sc)
+		if !ok || as.T.S.Kind != SArr {
+			c.fail("store wants a ghost array")
+			return c.boolVal(True)
+		}
+		i := c.idxOf(c.math(c.eval(arg(1)), arg(1)))
+		v := c.eval(arg(2))
+		var vt *Term
+		if as.T.S.Elem.Eq(x.byteSort()) {
+			m := c.math(v, arg(2))
+			if x.ar.BV {
+				vt = BVExtract(7, 0, m)
+			} else {
+				vt = m
+			}
+		} else {
+			vt = x.scalarOf(v.v, v.t)
+		}
+		return cval{Sc{Store(as.T, i, vt)}, nil}
 	case "same_array":
 		a, b := c.eval(arg(0)), c.eval(arg(1))
 		sa, ok1 := a.v.(Sl)
@@ -833,6 +874,9 @@ func autoPatterns(body *Term, k *Term) [][]*Term {
 			// only patterns whose non-ground part is the index
 			ok := true
 			if t.Op == "select" && mentions(t.Args[0]) {
+				ok = false
+			}
+			if hasBoolOp(t) {
 				ok = false
 			}
 			if ok && !seen[t.String()] {
